@@ -66,3 +66,26 @@ Theorem C02_ranges_sorted : forall new ops pd acc,
   rsorted acc -> sorted_by_start (line_diff_ops new ops pd acc).
 Proof. exact line_diff_ops_sorted. Qed.
 Print Assumptions C02_ranges_sorted.
+
+(* --- compositions --- *)
+From BW Require Import SpecTag SpecBlocks Merge Context.
+From BWP Require Import Run_proofs Compose_proofs.
+From Coq Require Import Permutation.
+(* For the sort, uniqueness, pattern, count, AI and script rules the diagnostics of the run over the selected blocks are exactly those a full scan computes for those blocks - none of an unselected block is reported, none of a selected block is dropped. *)
+Theorem C02_verdicts_agree : forall o ctx sel v,
+  In v [V_SORTED; V_UNIQUE; V_PATTERN; V_COUNT; V_AI; V_LUA] ->
+  (forall f bc, In f ctx -> In bc (fc_blocks f) -> prepass_block v bc = Ok tt) ->
+  vr_diags (run_validator o (restrict sel ctx) v) =
+  flat_map (fun f => flat_map (fun bc =>
+      if sel bc then vr_diags (vres_of (fc_path f) (validate_block o (named_modified ctx) v f bc))
+      else []) (fc_blocks f)) ctx.
+Proof. exact diff_mode_verdicts_agree. Qed.
+Print Assumptions C02_verdicts_agree.
+
+(* These rules look only at the block itself (not at diff flags, not at other blocks). *)
+Theorem C02_rules_are_local : forall o nm nm' v f bc bc',
+  In v [V_SORTED; V_UNIQUE; V_PATTERN; V_COUNT; V_AI; V_LUA] ->
+  bc_block bc = bc_block bc' ->
+  validate_block o nm v f bc = validate_block o nm' v f bc'.
+Proof. exact validate_block_local. Qed.
+Print Assumptions C02_rules_are_local.
